@@ -649,6 +649,7 @@ func workSide(r *mon.Run) {
 	configSide(r)
 	copiesSide(r)
 	namesSide(r)
+	runtimeSettingsSide(r)
 	// reporting only: no oracle looks at a clock
 	r.Set("stage_wall_s", map[string]float64{"history": t1.Sub(t0).Seconds(), "cross": t2.Sub(t1).Seconds(), "config": time.Since(t2).Seconds()})
 	r.Set("max_alloc_delta_on_metered_rejection_bytes", maxRejectDelta)
